@@ -58,17 +58,21 @@ fn main() {
         return;
     }
     let engine = std::env::var("HX_ENGINE").unwrap_or_else(|_| "printers".to_string());
-    if engine == "alias" {
-        alias::main();
-        return;
-    }
     let mut cache: HashMap<String, HashMap<String, String>> = HashMap::new();
+    let mut node = alias::NodeHandle::new();
     main_loop(
         &|r, i| {
+            if engine == "alias" {
+                return vec![alias::gen_case(r, &prop())];
+            }
             let spec = project::spec_for_case(r, i, &prop());
             run_one(&spec).into_iter().map(|(req, _)| req).collect()
         },
         &mut |f| {
+            // requests carry their engine in the op name, so corpus files may mix them
+            if f[0].ends_with(".alias") || f[0].ends_with(".alias2") {
+                return alias::run(&mut node, f);
+            }
             if f.len() < 2 {
                 return "bad-op".to_string();
             }
